@@ -111,6 +111,8 @@ def sig_match(pattern, sig):
             continue
         if isinstance(p, str) and p.endswith("*") and isinstance(s, str) and s.startswith(p[:-1]):
             continue
+        if isinstance(p, str) and "|" in p and str(s) in p.split("|"):
+            continue
         if p != s and str(p) != str(s):
             return False
     return True
